@@ -275,6 +275,26 @@ class C05:
                 if names != sorted(all_listeners):
                     V("broadcast-routing", "BAM delivered to %r, every listener %r expected" % (names, sorted(all_listeners)), "bam")
                     ok = False
+            # connection-mode flow control addressed to the GLOBAL address: no CA or listener holds address 255, an answer could
+            # only carry source address 255 - nothing is delivered, transmitted or kept
+            if ok:
+                if not fd:
+                    battery = [("TP.CM RTS", R.mk_id(7, 0, 0xEC, 255, SA_F), bytes(R.tp_rts(20, 3, 255, pgn_app)), False),
+                               ("TP.CM CTS", R.mk_id(7, 0, 0xEC, 255, SA_F), bytes(R.tp_cts(1, 1, pgn_app)), False),
+                               ("TP.CM EndOfMsgACK", R.mk_id(7, 0, 0xEC, 255, SA_F), bytes(R.tp_eom_ack(20, 3, pgn_app)), False),
+                               ("TP.CM Abort", R.mk_id(7, 0, 0xEC, 255, SA_F), bytes(R.tp_abort(1, pgn_app)), False)]
+                else:
+                    battery = [("FD.TP.CM RTS", R.mk_id(7, 0, 0x4D, 255, SA_F), bytes(R.fd_rts(1, 100, 2, 255, pgn_app)), True),
+                               ("FD.TP.CM CTS", R.mk_id(7, 0, 0x4D, 255, SA_F), bytes(R.fd_cts(0, 1, 1, pgn_app)), True),
+                               ("FD.TP.CM EOMA", R.mk_id(7, 0, 0x4D, 255, SA_F), bytes(R.fd_eoma(0, 100, 2, pgn_app)), True),
+                               ("FD.TP.CM Abort", R.mk_id(7, 0, 0x4D, 255, SA_F), bytes(R.fd_abort(0, 1, pgn_app)), True)]
+                for what, cid, data, fdf in battery:
+                    before = snapshot()
+                    inject(cid, data, fdf)
+                    settle()
+                    if not judge_nothing(before, what + " addressed to the global address", 255, "global-cm"):
+                        ok = False
+                        break
             # flags: only extended data frames are processed
             if ok:
                 own = owners()
